@@ -8,6 +8,7 @@ import IbcVerif.Driver.Commit
 import IbcVerif.Driver.Keys
 import IbcVerif.Driver.Ident
 import IbcVerif.Driver.Delay
+import IbcVerif.Driver.Version
 open Lean
 namespace IbcVerif.Driver.Pure
 open IbcVerif.J
@@ -18,6 +19,7 @@ def handlers : List (String → Json → Option (Except String Json)) :=
   , IbcVerif.Driver.Keys.handle
   , IbcVerif.Driver.Ident.handle
   , IbcVerif.Driver.Delay.handle
+  , IbcVerif.Driver.Version.handle
   ]
 
 def handle (f : String) (j : Json) : Except String Json :=
